@@ -54,6 +54,7 @@ class Scenario:
         self.loss_offset = kw.get("loss_offset", 0)       # added to every loss value (C20 scenarios)
         self.seed = kw.get("seed", 0)
         self.tables = kw.get("tables", "random")          # "random" | "spec:scalar" | "spec:multi" (IncExplainer.tla)
+        self.default_value = kw.get("default_value", None)   # DefaultImputer: one value for all features (None: (i+1)/2)
         self.companion = kw.get("companion", False)       # a second live explainer (own parts) is driven in between
 
     def to_json(self):
@@ -211,7 +212,8 @@ def build(sc):
     if sc.imputer in ("joint", "product"):
         imputer = MarginalImputer(model, sc.imputer, storage)
     elif sc.imputer == "default":
-        imputer = DefaultImputer(model, {nm: conv(F(i + 1, 2)) for i, nm in enumerate(names)})
+        imputer = DefaultImputer(model, {nm: conv(F(i + 1, 2) if sc.default_value is None else F(sc.default_value))
+                                         for i, nm in enumerate(names)})
     elif sc.imputer == "custom":
         class Custom(BaseImputer):
             """user-supplied imputer: draws rows through the global generator like the joint strategy"""
@@ -392,7 +394,7 @@ def run_scenario(sc, tape_mode="log", script=None, keep_raw=False, provider=None
              "defimp": sc.imputer in (None, "joint", "product", "custom"),
              "onemodel": sc.imputer == "default",
              "strategy": sc.imputer if sc.imputer in ("joint", "product") else ("joint" if sc.imputer in (None, "custom") else "none"),
-             "defaults": [red(F(i + 1, 2)) for i in range(sc.d)],
+             "defaults": [red(F(i + 1, 2) if sc.default_value is None else F(sc.default_value)) for i in range(sc.d)],
              "ignored": int(sc.ignore_feature or 0),
              "key": sc.key()}
     random.seed(sc.seed)
